@@ -1,4 +1,778 @@
-pub fn run(_args: &[String]) -> i32 {
-    eprintln!("chunks: not built yet");
-    2
+//! C06: executes the transport schedules printed by spec/ChunkedRead.tla against the three
+//! generated variants (blocking / tokio / async-std) of the login and world readers and writers.
+//!
+//! `vh chunks <schedules.ndjson> [--fault drop|dup]`
+//!   schedules.ndjson : REPLAY records of ChunkedRead  {"sid":class,"L":n,"sched":[k|0..],"eof":p|-1}
+//!                      (k > 0: the transport makes k more bytes available, 0: the poll answers
+//!                      Pending, eof = p: the transport closes after p bytes, -1: never)
+//!   stdin            : WowmWire codec records with an extra field "cls" = schedule class to apply
+//!   stdout           : "@n" progress markers, one line per disagreeing (record, entry point),
+//!                      a {"stats":..} line and the {"summary":..} line.
+//!
+//! The oracle is the model's ScheduleIndependent: the outcome is a function of the delivered
+//! content only, so every async run must equal the BLOCKING read of the same content (the whole
+//! buffer, or the prefix at which the schedule closes the transport): same message (PartialEq /
+//! Debug text), or an error of the same kind; same number of bytes consumed when both succeed.
+//! Writers: the three variants must hand identical bytes to a sink that accepts them in the
+//! schedule's pieces, and fail alike when the sink closes.
+//!
+//! No runtime: futures are polled by hand with a counting waker; a future that returns Pending
+//! without having arranged a wake-up, or that exceeds the poll budget, gets the verdict "stuck".
+
+#[path = "generated/chunks_gen.rs"]
+mod chunks_gen;
+
+use crate::codec::build_input;
+use crate::util::{guarded, install_quiet_panic_hook};
+use serde_json::{json, Value};
+use std::collections::HashMap;
+use std::error::Error;
+use std::fmt::Debug;
+use std::future::Future;
+use std::io::{self, BufRead, Cursor, Write};
+use std::pin::Pin;
+use std::sync::atomic::{AtomicUsize, Ordering};
+use std::sync::{Arc, Mutex};
+use std::task::{Context, Poll, Wake, Waker};
+
+// ------------------------------------------------------------------------------------------------
+// schedules
+// ------------------------------------------------------------------------------------------------
+
+pub struct Sched {
+    pub items: Vec<u32>,
+    pub eof: i64,
+}
+
+impl Sched {
+    fn limit(&self, l: usize) -> usize {
+        if self.eof >= 0 {
+            (self.eof as usize).min(l)
+        } else {
+            l
+        }
+    }
+}
+
+#[derive(Clone, Copy, PartialEq)]
+pub enum Fault {
+    None,
+    Drop,
+    Dup,
+}
+
+// ------------------------------------------------------------------------------------------------
+// scripted transport (read side)
+// ------------------------------------------------------------------------------------------------
+
+struct RState {
+    data: Vec<u8>,
+    items: Vec<u32>,
+    next: usize,
+    eof_planned: bool,
+    pos: usize,   // bytes handed to the reader
+    avail: usize, // bytes that have arrived
+    polls: usize,
+    pendings: usize,
+    eofs: usize,
+    overrun: bool, // polled after the schedule was used up although no Eof was scheduled
+}
+
+#[derive(Clone)]
+pub struct ScriptedReader(Arc<Mutex<RState>>);
+
+impl ScriptedReader {
+    fn new(data: &[u8], s: &Sched, fault: Fault) -> Self {
+        let mut d = data.to_vec();
+        // self-test faults: the transport loses / repeats the middle byte
+        match fault {
+            Fault::None => {}
+            Fault::Drop => {
+                if !d.is_empty() {
+                    d.remove(d.len() / 2);
+                }
+            }
+            Fault::Dup => {
+                if !d.is_empty() {
+                    let i = d.len() / 2;
+                    let b = d[i];
+                    d.insert(i, b);
+                }
+            }
+        }
+        ScriptedReader(Arc::new(Mutex::new(RState {
+            data: d,
+            items: s.items.clone(),
+            next: 0,
+            eof_planned: s.eof >= 0,
+            pos: 0,
+            avail: 0,
+            polls: 0,
+            pendings: 0,
+            eofs: 0,
+            overrun: false,
+        })))
+    }
+
+    /// Follows the schedule exactly. Returns Ready(n) with n bytes copied into `dst` (0 = EOF).
+    fn poll_into(&self, cx: &mut Context<'_>, dst: &mut [u8]) -> Poll<usize> {
+        let mut g = self.0.lock().unwrap();
+        let st = &mut *g;
+        st.polls += 1;
+        if dst.is_empty() {
+            return Poll::Ready(0);
+        }
+        if st.pos == st.avail {
+            match st.items.get(st.next).copied() {
+                Some(0) => {
+                    st.next += 1;
+                    st.pendings += 1;
+                    cx.waker().wake_by_ref();
+                    return Poll::Pending;
+                }
+                Some(k) => {
+                    st.next += 1;
+                    st.avail = (st.avail + k as usize).min(st.data.len());
+                }
+                None => {
+                    if !st.eof_planned {
+                        st.overrun = true;
+                    }
+                    st.eofs += 1;
+                    return Poll::Ready(0);
+                }
+            }
+            if st.pos == st.avail {
+                // (fault mode only: the altered data ran out)
+                st.eofs += 1;
+                return Poll::Ready(0);
+            }
+        }
+        let n = dst.len().min(st.avail - st.pos);
+        dst[..n].copy_from_slice(&st.data[st.pos..st.pos + n]);
+        st.pos += n;
+        Poll::Ready(n)
+    }
+}
+
+impl tokio::io::AsyncRead for ScriptedReader {
+    fn poll_read(self: Pin<&mut Self>, cx: &mut Context<'_>, buf: &mut tokio::io::ReadBuf<'_>) -> Poll<io::Result<()>> {
+        let dst = buf.initialize_unfilled();
+        match self.poll_into(cx, dst) {
+            Poll::Pending => Poll::Pending,
+            Poll::Ready(n) => {
+                buf.advance(n);
+                Poll::Ready(Ok(()))
+            }
+        }
+    }
+}
+
+impl futures_io::AsyncRead for ScriptedReader {
+    fn poll_read(self: Pin<&mut Self>, cx: &mut Context<'_>, buf: &mut [u8]) -> Poll<io::Result<usize>> {
+        match self.poll_into(cx, buf) {
+            Poll::Pending => Poll::Pending,
+            Poll::Ready(n) => Poll::Ready(Ok(n)),
+        }
+    }
+}
+
+// ------------------------------------------------------------------------------------------------
+// scripted sink (write side)
+// ------------------------------------------------------------------------------------------------
+
+struct WState {
+    items: Vec<u32>,
+    next: usize,
+    eof_planned: bool,
+    cap: usize,
+    out: Vec<u8>,
+    polls: usize,
+    pendings: usize,
+    overrun: bool,
+}
+
+#[derive(Clone)]
+pub struct ScriptedWriter(Arc<Mutex<WState>>);
+
+impl ScriptedWriter {
+    fn new(s: &Sched) -> Self {
+        ScriptedWriter(Arc::new(Mutex::new(WState {
+            items: s.items.clone(),
+            next: 0,
+            eof_planned: s.eof >= 0,
+            cap: 0,
+            out: Vec::new(),
+            polls: 0,
+            pendings: 0,
+            overrun: false,
+        })))
+    }
+
+    /// Accepts at most the scheduled piece. `None` = Pending. Some(0) = the sink is closed.
+    fn accept(&self, src: &[u8], blocking: bool) -> Option<usize> {
+        let mut g = self.0.lock().unwrap();
+        let st = &mut *g;
+        st.polls += 1;
+        if src.is_empty() {
+            return Some(0);
+        }
+        while st.cap == 0 {
+            match st.items.get(st.next).copied() {
+                Some(0) => {
+                    st.next += 1;
+                    if !blocking {
+                        st.pendings += 1;
+                        return None;
+                    }
+                }
+                Some(k) => {
+                    st.next += 1;
+                    st.cap = k as usize;
+                }
+                None => {
+                    if st.eof_planned {
+                        return Some(0);
+                    }
+                    st.overrun = true; // more bytes than the message has: take them all
+                    st.cap = usize::MAX;
+                }
+            }
+        }
+        let n = src.len().min(st.cap);
+        st.out.extend_from_slice(&src[..n]);
+        st.cap -= n;
+        Some(n)
+    }
+
+    fn poll_accept(&self, cx: &mut Context<'_>, src: &[u8]) -> Poll<io::Result<usize>> {
+        match self.accept(src, false) {
+            None => {
+                cx.waker().wake_by_ref();
+                Poll::Pending
+            }
+            Some(n) => Poll::Ready(Ok(n)),
+        }
+    }
+}
+
+impl Write for ScriptedWriter {
+    fn write(&mut self, buf: &[u8]) -> io::Result<usize> {
+        Ok(self.accept(buf, true).unwrap_or(0))
+    }
+    fn flush(&mut self) -> io::Result<()> {
+        Ok(())
+    }
+}
+
+impl tokio::io::AsyncWrite for ScriptedWriter {
+    fn poll_write(self: Pin<&mut Self>, cx: &mut Context<'_>, buf: &[u8]) -> Poll<io::Result<usize>> {
+        self.poll_accept(cx, buf)
+    }
+    fn poll_flush(self: Pin<&mut Self>, _cx: &mut Context<'_>) -> Poll<io::Result<()>> {
+        Poll::Ready(Ok(()))
+    }
+    fn poll_shutdown(self: Pin<&mut Self>, _cx: &mut Context<'_>) -> Poll<io::Result<()>> {
+        Poll::Ready(Ok(()))
+    }
+}
+
+impl futures_io::AsyncWrite for ScriptedWriter {
+    fn poll_write(self: Pin<&mut Self>, cx: &mut Context<'_>, buf: &[u8]) -> Poll<io::Result<usize>> {
+        self.poll_accept(cx, buf)
+    }
+    fn poll_flush(self: Pin<&mut Self>, _cx: &mut Context<'_>) -> Poll<io::Result<()>> {
+        Poll::Ready(Ok(()))
+    }
+    fn poll_close(self: Pin<&mut Self>, _cx: &mut Context<'_>) -> Poll<io::Result<()>> {
+        Poll::Ready(Ok(()))
+    }
+}
+
+// ------------------------------------------------------------------------------------------------
+// hand-rolled executor
+// ------------------------------------------------------------------------------------------------
+
+struct CountingWaker(AtomicUsize);
+
+impl Wake for CountingWaker {
+    fn wake(self: Arc<Self>) {
+        self.0.fetch_add(1, Ordering::Relaxed);
+    }
+    fn wake_by_ref(self: &Arc<Self>) {
+        self.0.fetch_add(1, Ordering::Relaxed);
+    }
+}
+
+/// Polls `f` until Ready. Err = "stuck": Pending without a wake-up, or poll budget exceeded.
+fn block_on<F: Future>(f: F, budget: usize) -> Result<F::Output, String> {
+    let mut f = std::pin::pin!(f);
+    let cw = Arc::new(CountingWaker(AtomicUsize::new(0)));
+    let waker = Waker::from(cw.clone());
+    let mut cx = Context::from_waker(&waker);
+    let mut polls = 0usize;
+    loop {
+        let before = cw.0.load(Ordering::Relaxed);
+        polls += 1;
+        match f.as_mut().poll(&mut cx) {
+            Poll::Ready(v) => return Ok(v),
+            Poll::Pending => {
+                if cw.0.load(Ordering::Relaxed) == before {
+                    return Err(format!("stuck: Pending without wake-up at poll {polls}"));
+                }
+                if polls > budget {
+                    return Err(format!("stuck: poll budget {budget} exceeded"));
+                }
+            }
+        }
+    }
+}
+
+// ------------------------------------------------------------------------------------------------
+// outcomes
+// ------------------------------------------------------------------------------------------------
+
+pub struct Out<M> {
+    pub res: Result<M, String>,
+    pub consumed: usize,
+    pub stuck: Option<String>,
+    pub polls: usize,
+    pub pendings: usize,
+    pub eofs: usize,
+    pub overrun: bool,
+}
+
+pub fn sync_out<'d, M, E>(
+    data: &'d [u8],
+    call: impl FnOnce(&mut Cursor<&'d [u8]>) -> Result<M, E>,
+    sig: fn(&E) -> String,
+) -> Out<M> {
+    let mut cur = Cursor::new(data);
+    let r = guarded(|| call(&mut cur));
+    let res = match r {
+        Err(p) => Err(format!("panic: {p}")),
+        Ok(Err(e)) => Err(sig(&e)),
+        Ok(Ok(m)) => Ok(m),
+    };
+    Out { res, consumed: cur.position() as usize, stuck: None, polls: 0, pendings: 0, eofs: 0, overrun: false }
+}
+
+pub fn async_out<M, E, Fut>(
+    data: &[u8],
+    s: &Sched,
+    fault: Fault,
+    call: impl FnOnce(ScriptedReader) -> Fut,
+    sig: fn(&E) -> String,
+) -> Out<M>
+where
+    Fut: Future<Output = Result<M, E>>,
+{
+    let tr = ScriptedReader::new(data, s, fault);
+    let budget = 4 * (s.items.len() + data.len()) + 64;
+    let h = tr.clone();
+    let r = guarded(move || block_on(call(h), budget));
+    let mut stuck = None;
+    let res = match r {
+        Err(p) => Err(format!("panic: {p}")),
+        Ok(Err(st)) => {
+            stuck = Some(st.clone());
+            Err(st)
+        }
+        Ok(Ok(Err(e))) => Err(sig(&e)),
+        Ok(Ok(Ok(m))) => Ok(m),
+    };
+    let g = tr.0.lock().unwrap_or_else(|e| e.into_inner());
+    Out { res, consumed: g.pos, stuck, polls: g.polls, pendings: g.pendings, eofs: g.eofs, overrun: g.overrun }
+}
+
+pub fn eq_pe<M: PartialEq + Debug>(a: &M, b: &M) -> bool {
+    // Debug text as fall-back: NaN payloads are equal to themselves for this purpose
+    a == b || format!("{a:?}") == format!("{b:?}")
+}
+
+pub fn eq_dbg<M: Debug>(a: &M, b: &M) -> bool {
+    format!("{a:?}") == format!("{b:?}")
+}
+
+fn io_kind_of(e: &(dyn Error + 'static)) -> Option<io::ErrorKind> {
+    e.downcast_ref::<io::Error>().map(|i| i.kind())
+}
+
+/// Debug text of a parse error with the text of an embedded io error reduced to its kind.
+fn parse_sig(p: &(dyn Error + 'static), dbg: String) -> String {
+    if let Some(kind) = p.source().and_then(io_kind_of) {
+        let mut it = dbg.splitn(2, "kind: ");
+        let head = it.next().unwrap_or("").to_string();
+        let variant = it.next().unwrap_or("").split('(').next().unwrap_or("").to_string();
+        return format!("{head}kind: {variant}(io {kind:?})");
+    }
+    dbg
+}
+
+pub fn sig_login(e: &wow_login_messages::errors::ExpectedOpcodeError) -> String {
+    use wow_login_messages::errors::ExpectedOpcodeError as X;
+    match e {
+        X::Opcode(o) => format!("Opcode({o})"),
+        X::Io(i) => format!("Io({:?})", i.kind()),
+        X::Parse(p) => format!("Parse({})", parse_sig(p, format!("{p:?}"))),
+    }
+}
+
+pub fn sig_world(e: &wow_world_messages::errors::ExpectedOpcodeError) -> String {
+    use wow_world_messages::errors::ExpectedOpcodeError as X;
+    match e {
+        X::Opcode { opcode, name, size } => format!("Opcode({opcode},{name:?},{size})"),
+        X::Io(i) => format!("Io({:?})", i.kind()),
+        X::Parse(p) => format!("Parse({})", parse_sig(p, format!("{p:?}"))),
+    }
+}
+
+fn clip(s: String) -> String {
+    if s.len() > 240 {
+        let mut t: String = s.chars().take(240).collect();
+        t.push_str("...");
+        t
+    } else {
+        s
+    }
+}
+
+fn describe<M: Debug>(o: &Out<M>) -> Value {
+    let res = match &o.res {
+        Ok(m) => clip(format!("ok: {m:?}")),
+        Err(e) => clip(format!("err: {e}")),
+    };
+    json!({"res": res, "consumed": o.consumed, "polls": o.polls, "pendings": o.pendings, "eofs": o.eofs,
+           "overrun": o.overrun, "stuck": o.stuck})
+}
+
+fn differ<M>(b: &Out<M>, x: &Out<M>, eq: fn(&M, &M) -> bool) -> Option<String> {
+    if let Some(s) = &x.stuck {
+        return Some(s.clone());
+    }
+    match (&b.res, &x.res) {
+        (Ok(m1), Ok(m2)) => {
+            if !eq(m1, m2) {
+                Some("different message".into())
+            } else if b.consumed != x.consumed {
+                Some(format!("same message, consumed {} (blocking) vs {}", b.consumed, x.consumed))
+            } else {
+                None
+            }
+        }
+        (Err(e1), Err(e2)) => {
+            if e1 == e2 {
+                None
+            } else {
+                Some("different error kind".into())
+            }
+        }
+        (Ok(_), Err(_)) => Some("blocking read succeeds, async read fails".into()),
+        (Err(_), Ok(_)) => Some("blocking read fails, async read succeeds".into()),
+    }
+}
+
+// ------------------------------------------------------------------------------------------------
+// per-record context and drivers (called by the generated dispatch)
+// ------------------------------------------------------------------------------------------------
+
+#[derive(Default)]
+pub struct Tally {
+    pub read_runs: u64,
+    pub write_runs: u64,
+    pub polls: u64,
+    pub pendings: u64,
+    pub eof_runs: u64,
+    pub ok_results: u64,
+    pub err_results: u64,
+    pub overruns: u64,
+    pub by_entry: HashMap<&'static str, u64>,
+}
+
+pub struct Cx<'a> {
+    pub bytes: &'a [u8],
+    pub name: &'a str,
+    pub scheds: &'a [Sched],
+    pub fault: Fault,
+    pub tally: &'a mut Tally,
+    /// entry -> (first disagreement, count)
+    pub findings: Vec<(&'static str, Value, u64)>,
+}
+
+impl<'a> Cx<'a> {
+    pub fn missing(&mut self, entry: &'static str) {
+        self.note(entry, json!({"why": "no typed entry point generated for this message"}));
+    }
+
+    fn note(&mut self, entry: &'static str, detail: Value) {
+        for f in self.findings.iter_mut() {
+            if f.0 == entry {
+                f.2 += 1;
+                return;
+            }
+        }
+        self.findings.push((entry, detail, 1));
+    }
+}
+
+pub fn drive_read<M: Debug>(
+    cx: &mut Cx,
+    entry: &'static str,
+    eq: fn(&M, &M) -> bool,
+    sync: impl Fn(&[u8]) -> Out<M>,
+    tokio: impl Fn(&[u8], &Sched, Fault) -> Out<M>,
+    astd: impl Fn(&[u8], &Sched, Fault) -> Out<M>,
+) {
+    let l = cx.bytes.len();
+    let mut cache: Vec<Option<Out<M>>> = (0..=l).map(|_| None).collect();
+    let scheds = cx.scheds;
+    for s in scheds {
+        let limit = s.limit(l);
+        if cache[limit].is_none() {
+            cache[limit] = Some(sync(&cx.bytes[..limit]));
+        }
+        let b = cache[limit].as_ref().unwrap();
+        let t = tokio(cx.bytes, s, cx.fault);
+        let a = astd(cx.bytes, s, cx.fault);
+        cx.tally.read_runs += 2;
+        *cx.tally.by_entry.entry(entry).or_insert(0) += 2;
+        cx.tally.polls += (t.polls + a.polls) as u64;
+        cx.tally.pendings += (t.pendings + a.pendings) as u64;
+        if s.eof >= 0 {
+            cx.tally.eof_runs += 2;
+        }
+        if b.res.is_ok() {
+            cx.tally.ok_results += 1;
+        } else {
+            cx.tally.err_results += 1;
+        }
+        if t.overrun || a.overrun {
+            cx.tally.overruns += 1;
+        }
+        let dt = differ(b, &t, eq);
+        let da = differ(b, &a, eq);
+        if dt.is_some() || da.is_some() {
+            let detail = json!({"sched": s.items, "eof": s.eof, "content_len": limit,
+                "blocking": describe(b), "tokio": describe(&t), "astd": describe(&a),
+                "tokio_differs": dt, "astd_differs": da});
+            cx.note(entry, detail);
+        }
+    }
+}
+
+struct WOut {
+    kind: String,
+    bytes: Vec<u8>,
+    stuck: Option<String>,
+    polls: usize,
+    pendings: usize,
+}
+
+fn wres(r: Result<Result<io::Result<()>, String>, String>, w: &ScriptedWriter) -> WOut {
+    let mut stuck = None;
+    let kind = match r {
+        Err(p) => format!("panic: {p}"),
+        Ok(Err(st)) => {
+            stuck = Some(st.clone());
+            st
+        }
+        Ok(Ok(Err(e))) => format!("Io({:?})", e.kind()),
+        Ok(Ok(Ok(()))) => "ok".to_string(),
+    };
+    let g = w.0.lock().unwrap_or_else(|e| e.into_inner());
+    WOut { kind, bytes: g.out.clone(), stuck, polls: g.polls, pendings: g.pendings }
+}
+
+fn wdescribe(o: &WOut) -> Value {
+    json!({"res": o.kind, "bytes": crate::util::hex(&o.bytes), "polls": o.polls, "pendings": o.pendings})
+}
+
+pub fn drive_write<FT, FA>(
+    cx: &mut Cx,
+    entry: &'static str,
+    sync: impl Fn(ScriptedWriter) -> io::Result<()>,
+    tokio: impl Fn(ScriptedWriter) -> FT,
+    astd: impl Fn(ScriptedWriter) -> FA,
+) where
+    FT: Future<Output = io::Result<()>>,
+    FA: Future<Output = io::Result<()>>,
+{
+    let scheds = cx.scheds;
+    for s in scheds {
+        let budget = 4 * (s.items.len() + cx.bytes.len()) + 64;
+        let wb = ScriptedWriter::new(s);
+        let b = {
+            let h = wb.clone();
+            wres(guarded(|| Ok(sync(h))), &wb)
+        };
+        let wt = ScriptedWriter::new(s);
+        let t = {
+            let h = wt.clone();
+            wres(guarded(|| block_on(tokio(h), budget)), &wt)
+        };
+        let wa = ScriptedWriter::new(s);
+        let a = {
+            let h = wa.clone();
+            wres(guarded(|| block_on(astd(h), budget)), &wa)
+        };
+        cx.tally.write_runs += 2;
+        *cx.tally.by_entry.entry(entry).or_insert(0) += 2;
+        cx.tally.polls += (t.polls + a.polls) as u64;
+        cx.tally.pendings += (t.pendings + a.pendings) as u64;
+        let why = |x: &WOut| -> Option<String> {
+            if let Some(s) = &x.stuck {
+                Some(s.clone())
+            } else if x.kind != b.kind {
+                Some("different result kind".into())
+            } else if x.bytes != b.bytes {
+                Some("different bytes emitted".into())
+            } else {
+                None
+            }
+        };
+        let (dt, da) = (why(&t), why(&a));
+        if dt.is_some() || da.is_some() {
+            let detail = json!({"sched": s.items, "eof": s.eof, "blocking": wdescribe(&b), "tokio": wdescribe(&t),
+                "astd": wdescribe(&a), "tokio_differs": dt, "astd_differs": da});
+            cx.note(entry, detail);
+        }
+    }
+}
+
+/// The three writers of one login message type.
+pub fn login_writes<M: wow_login_messages::Message + Sync>(cx: &mut Cx, m: &M) {
+    drive_write(cx, "write", |w| m.write(w), |w| m.tokio_write(w), |w| m.astd_write(w));
+}
+
+// ------------------------------------------------------------------------------------------------
+
+fn load_schedules(path: &str) -> Result<HashMap<u64, (usize, Vec<Sched>)>, String> {
+    let f = std::fs::File::open(path).map_err(|e| format!("{path}: {e}"))?;
+    let mut map: HashMap<u64, (usize, Vec<Sched>)> = HashMap::new();
+    for line in io::BufReader::new(f).lines() {
+        let line = line.map_err(|e| e.to_string())?;
+        if line.trim().is_empty() {
+            continue;
+        }
+        let v: Value = serde_json::from_str(&line).map_err(|e| format!("bad schedule line: {e}"))?;
+        let sid = v["sid"].as_u64().ok_or("schedule without sid")?;
+        let l = v["L"].as_u64().ok_or("schedule without L")? as usize;
+        let items: Vec<u32> = v["sched"]
+            .as_array()
+            .ok_or("schedule without sched")?
+            .iter()
+            .map(|x| x.as_u64().unwrap_or(0) as u32)
+            .collect();
+        let eof = v["eof"].as_i64().ok_or("schedule without eof")?;
+        // shape demanded by the model (SchedShape): the chunks add up to the delivered content
+        let total: u64 = items.iter().map(|&k| k as u64).sum();
+        let want = if eof >= 0 { eof as u64 } else { l as u64 };
+        if total != want {
+            return Err(format!("schedule of class {sid} delivers {total} bytes, content is {want}"));
+        }
+        let e = map.entry(sid).or_insert_with(|| (l, Vec::new()));
+        if e.0 != l {
+            return Err(format!("class {sid} has two lengths"));
+        }
+        e.1.push(Sched { items, eof });
+    }
+    Ok(map)
+}
+
+pub fn run(args: &[String]) -> i32 {
+    install_quiet_panic_hook();
+    let Some(path) = args.first() else {
+        eprintln!("usage: vh chunks <schedules.ndjson> [--fault drop|dup]");
+        return 2;
+    };
+    let mut fault = Fault::None;
+    let mut i = 1;
+    while i < args.len() {
+        if args[i] == "--fault" {
+            fault = match args.get(i + 1).map(|s| s.as_str()) {
+                Some("drop") => Fault::Drop,
+                Some("dup") => Fault::Dup,
+                _ => Fault::None,
+            };
+            i += 1;
+        }
+        i += 1;
+    }
+    let classes = match load_schedules(path) {
+        Ok(m) => m,
+        Err(e) => {
+            eprintln!("chunks: {e}");
+            return 2;
+        }
+    };
+    let stdin = io::stdin();
+    let stdout = io::stdout();
+    let mut w = io::BufWriter::new(stdout.lock());
+    let mut tally = Tally::default();
+    let (mut n, mut ok) = (0u64, 0u64);
+    for line in stdin.lock().lines() {
+        let Ok(line) = line else { break };
+        if line.trim().is_empty() {
+            continue;
+        }
+        let rec: Value = match serde_json::from_str(&line) {
+            Ok(v) => v,
+            Err(e) => {
+                eprintln!("bad record: {e}");
+                return 2;
+            }
+        };
+        if rec["kind"] != "codec" {
+            continue;
+        }
+        n += 1;
+        writeln!(w, "@{n}").unwrap();
+        w.flush().unwrap();
+        let name = rec["name"].as_str().unwrap_or("").to_string();
+        let exp = rec["exp"].as_str().unwrap_or("").to_string();
+        let dir = rec["dir"].as_str().unwrap_or("").to_string();
+        let lv = rec["lv"].as_u64().unwrap_or(0);
+        let base = |verdict: &str, entry: &str, count: u64, detail: Value| {
+            json!({"id": rec["id"], "name": name, "exp": exp, "lv": lv, "dir": dir, "prof": rec["prof"],
+                   "verdict": verdict, "entry": entry, "count": count, "detail": detail})
+        };
+        let input = match build_input(&rec) {
+            Ok(i) if i.region.is_none() => i,
+            _ => {
+                writeln!(w, "{}", base("harness_unsupported", "", 1, json!("compressed region"))).unwrap();
+                continue;
+            }
+        };
+        let cls = rec["cls"].as_u64().unwrap_or(u64::MAX);
+        let Some((l, scheds)) = classes.get(&cls) else {
+            writeln!(w, "{}", base("harness_unsupported", "", 1, json!("no schedule class"))).unwrap();
+            continue;
+        };
+        if *l != input.bytes.len() {
+            writeln!(w, "{}", base("harness_unsupported", "", 1,
+                json!(format!("schedule class of length {l} applied to {} bytes", input.bytes.len())))).unwrap();
+            continue;
+        }
+        let mut cx = Cx { bytes: &input.bytes, name: &name, scheds, fault, tally: &mut tally, findings: Vec::new() };
+        if !chunks_gen::dispatch(&exp, lv, &dir, &mut cx) {
+            writeln!(w, "{}", base("harness_unsupported", "", 1, json!("no dispatch"))).unwrap();
+            continue;
+        }
+        if cx.findings.is_empty() {
+            ok += 1;
+        } else {
+            let hexin = crate::util::hex(&input.bytes);
+            for (entry, mut detail, count) in std::mem::take(&mut cx.findings) {
+                detail["input"] = json!(hexin);
+                writeln!(w, "{}", base("disagree", entry, count, detail)).unwrap();
+            }
+        }
+    }
+    let by: HashMap<String, u64> = tally.by_entry.iter().map(|(k, v)| (k.to_string(), *v)).collect();
+    writeln!(w, "{}", json!({"stats": {"read_runs": tally.read_runs, "write_runs": tally.write_runs,
+        "polls": tally.polls, "pendings": tally.pendings, "eof_runs": tally.eof_runs,
+        "blocking_ok": tally.ok_results, "blocking_err": tally.err_results, "overruns": tally.overruns,
+        "by_entry": by}})).unwrap();
+    writeln!(w, "{}", json!({"summary": {"records": n, "ok": ok}})).unwrap();
+    0
 }
